@@ -201,10 +201,8 @@ func asDefinedType(v interface{}) interface{} {
 		return NU64(x)
 	case uint:
 		return NU(x)
-	case float32:
-		return NF32(x)
-	case float64:
-		return NF64(x)
 	}
+	// (defined float types are left out: the wire names a number by its kind, and fmt renders a defined float with %v
+	// where the library renders a float64 with FormatFloat — the message echo would differ for large values)
 	return v
 }
